@@ -10,8 +10,10 @@ import (
 	"math"
 	"os"
 	"path/filepath"
+	"runtime"
 	"sort"
 	"strings"
+	"syscall"
 	"time"
 
 	"github.com/alibaba/RedisShake/pkg/libs/log"
@@ -191,7 +193,36 @@ func c17filesChild(raw json.RawMessage, scratch string) {
 		wk.ChildCase(i, d)
 		in := filepath.Join(scratch, fmt.Sprintf("in-%d.rdb", i))
 		outp := filepath.Join(scratch, fmt.Sprintf("out-%d", i))
-		ioutil.WriteFile(in, data, 0644)
+		if i%3 == 0 && special == "" && syscall.Mkfifo(in, 0644) == nil {
+			// the input is a named pipe (decode of a stream that is still being produced): the reader gets the bytes in the
+			// pieces the producer writes them in, so that strings, lengths and opcodes are split over several reads
+			r.Count("runs_reading_from_a_named_pipe", 1)
+			wr := rng.At(0xF1F0)
+			go func(data []byte) {
+				f, err := os.OpenFile(in, os.O_WRONLY, 0)
+				if err != nil {
+					return
+				}
+				defer f.Close()
+				for len(data) > 0 {
+					n := wr.Pick(1, 2, 3, 7, 64, 500, 4096, 70000)
+					if n > len(data) {
+						n = len(data)
+					}
+					if _, err := f.Write(data[:n]); err != nil {
+						return
+					}
+					data = data[n:]
+					if wr.Chance(1, 3) {
+						time.Sleep(time.Duration(wr.Intn(300)) * time.Microsecond)
+					} else {
+						runtime.Gosched()
+					}
+				}
+			}(data)
+		} else {
+			ioutil.WriteFile(in, data, 0644)
+		}
 		inputs, outIdx := []string{in}, 0
 		if i%5 == 2 && special == "" {
 			// decode takes a list of input files and handles them one after the other: this case's file comes second
@@ -363,6 +394,7 @@ func c17(c *wk.Ctx) {
 	wk.Parallel(len(jobs), 13, func(i int) {
 		wk.RunBatch(c, "c17files", jobs[i].start, jobs[i].end, nil, 30*time.Minute, onDeath)
 	})
+	r.Floor("runs_reading_from_a_named_pipe", 50)
 	r.Floor("files", 300)
 	r.Floor("elements", 20000)
 	for _, p := range []string{"parallel_1", "parallel_2", "parallel_4", "parallel_16", "parallel_64"} {
